@@ -60,7 +60,12 @@ func (i *ClusterIterator) loadRoute() {
 	if !ok {
 		panic("partID: could not be found in the routing table")
 	}
-	i.route = &route
+	// The iterator removes the owners it has scanned to the end from its route. Work on a copy,
+	// the owner lists share their memory with the routing table.
+	i.route = &Route{
+		PrimaryOwners: append([]string(nil), route.PrimaryOwners...),
+		ReplicaOwners: append([]string(nil), route.ReplicaOwners...),
+	}
 }
 
 func (i *ClusterIterator) updateCursor(owner string, cursor uint64) {
@@ -111,12 +116,13 @@ func (i *ClusterIterator) updateIterator(keys []string, cursor uint64, owner str
 	i.updateCursor(owner, cursor)
 }
 
+// getOwners returns the owners of the current partition that have not been scanned to the end yet.
 func (i *ClusterIterator) getOwners() []string {
 	var raw []string
 	if i.config.Replica {
-		raw = i.routingTable[i.partID].ReplicaOwners
+		raw = i.route.ReplicaOwners
 	} else {
-		raw = i.routingTable[i.partID].PrimaryOwners
+		raw = i.route.PrimaryOwners
 	}
 	var owners []string
 	// Make a safe copy of the raw.
@@ -126,22 +132,27 @@ func (i *ClusterIterator) getOwners() []string {
 	return owners
 }
 
-func (i *ClusterIterator) removeScannedOwner(idx int) {
+func (i *ClusterIterator) removeScannedOwner(owner string) {
+	remove := func(owners []string) []string {
+		var rest []string
+		for _, o := range owners {
+			if o != owner {
+				rest = append(rest, o)
+			}
+		}
+		return rest
+	}
 	if i.config.Replica {
-		if len(i.route.ReplicaOwners) > 0 && len(i.route.ReplicaOwners) > idx {
-			i.route.ReplicaOwners = append(i.route.ReplicaOwners[:idx], i.route.ReplicaOwners[idx+1:]...)
-		}
+		i.route.ReplicaOwners = remove(i.route.ReplicaOwners)
 	} else {
-		if len(i.route.PrimaryOwners) > 0 && len(i.route.PrimaryOwners) > idx {
-			i.route.PrimaryOwners = append(i.route.PrimaryOwners[:idx], i.route.PrimaryOwners[idx+1:]...)
-		}
+		i.route.PrimaryOwners = remove(i.route.PrimaryOwners)
 	}
 }
 
 func (i *ClusterIterator) scanOnOwners() error {
 	owners := i.getOwners()
 
-	for idx, owner := range owners {
+	for _, owner := range owners {
 		cursor := i.loadCursor(owner)
 
 		// Build a scan command here
@@ -170,7 +181,7 @@ func (i *ClusterIterator) scanOnOwners() error {
 		}
 		i.updateIterator(keys, newCursor, owner)
 		if newCursor == 0 {
-			i.removeScannedOwner(idx)
+			i.removeScannedOwner(owner)
 		}
 	}
 	return nil
